@@ -220,7 +220,7 @@ template <class T, class Sh, class P, class Pinv, int ENTRY, int SRC> static inl
 
 // ---- transpose / trans / ctrans ---------------------------------------------------------------------------------
 enum TEntry { T_TRANSPOSE = 0, T_TRANS_CTOR = 1, T_TRANS_ASSIGN = 2, T_CTRANS_CTOR = 3, T_CTRANS_ASSIGN = 4, T_TRANSPOSE_EXPR = 5, T_TRANS_EXPR = 6,
-              T_CTRANSPOSE = 7, T_BATCH = 8, T_TRANS_ADD = 9, T_TRANS_SUB = 10, T_TRANS_MUL = 11, T_TRANS_DIV = 12 };
+              T_CTRANSPOSE = 7, T_BATCH = 8, T_TRANS_ADD = 9, T_TRANS_SUB = 10, T_TRANS_MUL = 11, T_TRANS_DIV = 12, T_CTRANSPOSE_EXPR = 13, T_CTRANS_EXPR = 14 };
 template <int E> struct TTag {};
 // R = the type the library itself attaches to the result (function return type, or the expression's result_type)
 template <class A> static FASTOR_INLINE auto tcall(TTag<T_TRANSPOSE>, const A& a) -> decltype(transpose(a)) { return transpose(a); }
@@ -236,6 +236,9 @@ template <class A> static FASTOR_INLINE auto tcall(TTag<T_TRANS_ASSIGN>, const A
 template <class A> static FASTOR_INLINE auto tcall(TTag<T_CTRANS_ASSIGN>, const A& a) -> typename decltype(ctrans(a))::result_type {
     typename decltype(ctrans(a))::result_type r; r = ctrans(a); return r; }
 
+template <class A> static FASTOR_INLINE auto tcall(TTag<T_CTRANSPOSE_EXPR>, const A& a) -> decltype(ctranspose(a + typename A::scalar_type(0))) { return ctranspose(a + typename A::scalar_type(0)); }
+template <class A> static FASTOR_INLINE auto tcall(TTag<T_CTRANS_EXPR>, const A& a) -> typename decltype(ctrans(a + typename A::scalar_type(0)))::result_type {
+    return typename decltype(ctrans(a + typename A::scalar_type(0)))::result_type(ctrans(a + typename A::scalar_type(0))); }
 // trans() consumed by a compound assignment; the destination is prepared so that the result is again exactly the transpose
 template <class A> static FASTOR_INLINE auto tcall(TTag<T_TRANS_ADD>, const A& a) -> typename decltype(trans(a))::result_type {
     typename decltype(trans(a))::result_type r; r.zeros(); r += trans(a); return r; }
@@ -300,7 +303,7 @@ template <class T, class A, int E> static inline void trans_any(fx::Ctx& fx, siz
     static_assert(TInfo<R>::is_tensor && TInfo<A2>::is_tensor, "the library returns a tensor");
     TJob j; memset(&j, 0, sizeof j);
     j.B = B; j.M = M; j.N = N; j.entry = E;
-    j.conj = (E == T_CTRANS_CTOR || E == T_CTRANS_ASSIGN || E == T_CTRANSPOSE);
+    j.conj = (E == T_CTRANS_CTOR || E == T_CTRANS_ASSIGN || E == T_CTRANSPOSE || E == T_CTRANSPOSE_EXPR || E == T_CTRANS_EXPR);
     j.rrank = TInfo<R>::rank; TInfo<R>::ext(j.rext); j.brank = TInfo<A2>::rank; TInfo<A2>::ext(j.bext);
     j.sizeofA = sizeof(A); j.sizeofR = sizeof(R); j.sizeofA2 = sizeof(A2);
     j.fwd = &X::fwd; j.back = &X::back;
